@@ -460,6 +460,8 @@ def _check(mod, prop_id: str, tier: str, seed: int, t0: float) -> int:
     import itertools
     evaluate_cases(mod, itertools.chain(cases, mod.generate(rng, tier, 1)), stats, use_model=driver_ok)
 
+    if hasattr(mod, "tie_problems"):
+        proof_problems.extend(mod.tie_problems(stats))
     broken_tie = bool(stats.disagreements) or bool(proof_problems) or not driver_ok
     escalated = 0
     if broken_tie and not stats.oracle_violations:
